@@ -54,6 +54,12 @@ impl Check for ConnectivityModel {
     type Case = ConnCase;
     const NAME: &'static str = "connectivity_model";
 
+    fn normalise(mut case: ConnCase) -> ConnCase {
+        case.defs = crate::props::world::normalise_defs(case.defs, true);
+        case
+    }
+
+
     fn strategy(tier: Tier) -> BoxedStrategy<ConnCase> {
         let max = match tier {
             Tier::Quick => 40,
